@@ -283,6 +283,12 @@ ob("font_widths_get", ["C19"], "font.rs", unwind=6, timeout=600, functions=["fon
 ob("font_widths_commute", ["C19"], "font.rs", unwind=16, timeout=1200, mem_gb=12, functions=WFN,
    bound="5 concrete (first_char, len, code a, code b) shapes; both insertion orders give the same table")
 
+for h in ("object_opt_i32_dangling", "object_opt_name_dangling", "object_opt_bool_dangling", "object_opt_f32_dangling",
+          "object_opt_rect_dangling", "object_opt_rcref_dangling", "object_opt_mayberef_dangling"):
+    ob(h, ["C18"], "object.rs", unwind=6, cuts=X1_ALL + ["std::sync::Arc<error::PdfError>"], stubs=[FMT_STUB], timeout=900, mem_gb=12,
+       functions=["object::<impl Object for Option<T>>::from_primitive", "primitive::Primitive::resolve", "scalar reader of T"],
+       bound="Option<%s> of a reference to a free / never-defined object (every object number and generation), strict and tolerant, "
+             "with a stand-in resolver returning the bare FreeObject / NullRef errors of Storage::resolve_ref" % h.split("_")[2])
 # ---------------------------------------------------------------------------------------------------------------------
 # file.rs: C18 (Option reader against the real Storage resolver)
 # ---------------------------------------------------------------------------------------------------------------------
@@ -293,7 +299,7 @@ for h, t in [("file_opt_i32_free", "quick"), ("file_opt_i32_undefined", "quick")
              ("file_opt_name_beyond", "thorough"), ("file_opt_rcref_beyond", "quick"), ("file_opt_rcref_free", "thorough"),
              ("file_opt_maybe_undefined", "thorough")]:
     ob(h, ["C18"], "file.rs", unwind=6, cuts=X1_ALL, guards=C18_GUARDS, stubs=[FMT_STUB, RS_STUB, DEC_STUB], timeout=900, mem_gb=12,
-       tier=t, functions=["object::<impl Object for Option<T>>::from_primitive", "file::Storage::resolve_ref",
+       tier="infeasible", functions=["object::<impl Object for Option<T>>::from_primitive", "file::Storage::resolve_ref",
                           "file::StorageResolver::resolve_flags", "file::StorageResolver::get", "xref::XRefTable::get"],
        bound="one dangling reference (%s) through the real StorageResolver, strict and tolerant mode" % h[9:])
 
